@@ -59,7 +59,10 @@ pub fn build(base: &Path, spec: &TreeSpec) -> Result<PathBuf, String> {
     every.sort_by(|a, b| b.components().count().cmp(&a.components().count()).then(a.cmp(b)));
     const ODD: [i64; 6] = [-86_400, 0, 1, 2_147_483_648, 4_102_444_800, -2_208_988_800];
     for (i, p) in every.iter().enumerate() {
-        let t = if spec.mtime_mode != 0 && (i + spec.mtime_mode as usize) % 3 == 0 { ODD[(i / 3 + spec.mtime_mode as usize) % ODD.len()] } else { 1_600_000_000 + (i as i64 % 1000) };
+        // mode 7: the other way round (a file is newer than what sorts behind it, e.g. its .gz sibling)
+        let t = if spec.mtime_mode == 7 {
+            1_600_000_000 + 1000 - (i as i64 % 1000)
+        } else if spec.mtime_mode != 0 && (i + spec.mtime_mode as usize) % 3 == 0 { ODD[(i / 3 + spec.mtime_mode as usize) % ODD.len()] } else { 1_600_000_000 + (i as i64 % 1000) };
         set_mtime(p, t);
     }
     set_mtime(base, 1_600_000_000);
